@@ -162,13 +162,13 @@ def _shape_param(f):
     return ps[0] if len(ps) == 1 else None
 
 
-def _sites(prog, f, meth):
+def _sites(prog, f, meth, extra=()):
     """[(where fn, block, callee, levels-of-shape-arg)] for calls to format_block / family functions in f + closures"""
     out = []
     for g in [f] + _own_closures(prog, f):
         for b, t in g.calls():
             c = callee(t)
-            if FORMAT_BLOCK.search(c) or FAMILY.search(c):
+            if FORMAT_BLOCK.search(c) or FAMILY.search(c) or c in extra:
                 shp = [a for a in t["args"] if not is_const(a) and _is_shape(g, a)]
                 if len(shp) != 1:
                     out.append((g, b, c, {(("?", "no-shape-argument"), 0)}))
@@ -236,15 +236,35 @@ def rule_indent(ctx, prop):
                               f"exactly +1 ({why}): statements inside the range but nested in an out-of-range statement come "
                               f"out indented differently from whole-file formatting", fam[e].loc(), cfg)
         # ordinary formatters: every direct format_block call passes own shape + 1
+        # a new private helper around format_block (`format_nested_block(ctx, block, shape)`: reset + one level + format_block)
+        # is summarised by the level it adds to its own shape parameter; its call sites are judged like format_block's
+        from inline import known_names
+        known = known_names("stylua_lib")
+        helpers = {}
+        if known is not None:
+            for h in prog.fns("stylua_lib"):
+                if h.kind == "Closure" or h.path in known or not h.path.startswith("formatters::"):
+                    continue
+                hp = _shape_param(h)
+                if hp is None:
+                    continue
+                lvls = set()
+                for g, b, c, lv in _sites(prog, h, meth):
+                    if FORMAT_BLOCK.search(c):
+                        lvls |= {l if base == (h.key, hp) else "?" for base, l in lv}
+                if lvls and "?" not in lvls and len(lvls) == 1:
+                    helpers[h.path] = next(iter(lvls))
         n = 0
         for f in prog.fns("stylua_lib"):
-            if f.kind == "Closure" or FAMILY.search(f.path) or not f.path.startswith("formatters::"):
+            if f.kind == "Closure" or FAMILY.search(f.path) or not f.path.startswith("formatters::") or f.path in helpers:
                 continue
             sp = _shape_param(f)
             if sp is None:
                 continue
-            for g, b, c, lv in _sites(prog, f, meth):
-                if not FORMAT_BLOCK.search(c):
+            for g, b, c, lv in _sites(prog, f, meth, extra=set(helpers)):
+                if c in helpers:
+                    lv = {(base, l + helpers[c]) for base, l in lv}
+                elif not FORMAT_BLOCK.search(c):
                     continue
                 n += 1
                 ok = lv == {((f.key, sp), 1)}
